@@ -39,13 +39,15 @@ LEVEL_TEXT = ('for every Boolean function f with arities n, m >= 1 and every que
               'incl. exception kinds')
 LEVEL_NOTE = ('Coq kernel + vm_compute; hand-written model of the code repaired by fixes/D4, D16, D21; correspondence '
               'harness. Second tie: translator T11 regenerates core/utils.py (input_to_canonical_index, '
-              'canonical_index_to_input, get_bit_value), input_iterator_with_fixed_sum and every method of TruthTable '
+              'canonical_index_to_input, get_bit_value), input_iterator_with_fixed_sum, every method of TruthTable '
               'and TruthTableModel (incl. both constructors, resolve_input_size, _parse_bool, _parse_trival, define) '
+              'and the constructor and protocol methods of PyFunction / PyFunctionModel (callable = Gallina function) '
               'from the source on every check, and C12_truth_table_regenerated proves each regenerated definition '
               'equal to the hand-model function (index / size arguments naturals; define: table of valid shape); '
               'trusted there: the translator and its prelude of Python primitives (list / str / int operations, '
-              'math.log2 as floor + exactness flag). The protocol methods of Circuit and the class PyFunction are '
-              'not regenerated for C12 (Circuit.evaluate / get_truth_table are, by T10, for C01). Hypotheses of the query theorems: the circuit computes f through Circuit.evaluate/evaluate_at '
+              'math.log2 as floor + exactness flag). Not regenerated for C12: the protocol methods of Circuit '
+              '(Circuit.evaluate / get_truth_table are, by T10, for C01), the static factories of PyFunction '
+              '(from_positional, from_int_*_func) and PyFunctionModel.define (they build closures). Hypotheses of the query theorems: the circuit computes f through Circuit.evaluate/evaluate_at '
               '(that evaluate is the netlist semantics is C01), the callable computes f, the table is the table of f; '
               'm >= 1 (a TruthTable with no output cannot be constructed). "monotone" is the protocol\'s documented '
               'notion (output sequence in enumeration order non-decreasing / non-increasing), NOT lattice monotonicity. '
